@@ -109,7 +109,12 @@ def run (ctx : Algo.Ctx) (op : String) (args impl : List String) : Outcome :=
       | [b, e] => (parseInt b, parseInt e)
       | _ => (0, 0)
     let pts := buildPoints cfg ((parseNatList crits).map critOf) runes os (parseInt score)
-    { model := ".".intercalate (pts.map toString), tags := ["points", "nt"] }
+    let model := ".".intercalate (pts.map toString)
+    -- the criterion definitions (score, chunk width, trimmed length, begin/end distance, pathname
+    -- distance) are the model's `buildPoints`; a different key is a wrong sort key
+    let spec := if impl == [model] then specOk
+      else specFail s!"[C04] sort key {impl.headD ""} but the criteria define {model}"
+    { model, spec, tags := ["points", "nt"] }
   | _, _ => { model := "bad-op" }
 
 end Driver.Rank
